@@ -420,6 +420,8 @@ ExpOK(x, P, r) ==
   IF IsTimeout(r) THEN Bad("does-not-terminate")
   ELSE IF ~IsD(r) THEN Bad("outcome-kind")
   ELSE ExpValOK(x, P, DecOf(r.d))
+\* C20: exp delivers the configured number of significant digits (exp(0) = 1 apart)
+ExpDigitsOK(x, P, r) == IF ~IsD(r) \/ x.d = <<>> THEN OK ELSE Chk(Len(DecOf(r.d).d) = P, "not-the-configured-number-of-digits")
 
 \* ---------------------------------------------------------------- C14: binary floats
 \* float -> decimal: exactly the binary value; NaN and infinities are errors
